@@ -130,6 +130,21 @@ func c10Battery(env *core.Env, cc *c10Coll) {
 	expectBool("empty", "%c.empty()", n == 0)
 	expectBool("empty", "%c.empty() = (%c.count() = 0)", true)
 	expectBool("exists", "%c.exists()", n > 0)
+	// subsetting with the number held in a variable (one compiled expression, another number at each evaluation)
+	for k := 0; k <= n+1; k++ {
+		lo := k
+		if lo > n {
+			lo = n
+		}
+		nv := evalopts.EnvVariable("n", system.Integer(k))
+		env.Cover("subsetting-variable-argument")
+		expectItems("take-variable", "%c.take(%n)", cc.C[:lo], nv)
+		expectItems("skip-variable", "%c.skip(%n)", cc.C[lo:], nv)
+		expectItems("skip-take-variable", "%c.skip(%n).take(%n + 1)", cc.C[lo:minInt(n, lo+k+1)], nv)
+		if k < n {
+			expectItems("index-variable", "%c[%n]", cc.C[k:k+1], nv)
+		}
+	}
 	// projections and criteria that hand the item itself on: the in-order concatenation is c again
 	env.Cover("select-identity")
 	for _, e := range []string{"$this", "$this.take(1)", "iif(true, $this)", "$this.skip(0)", "$this.where(true)", "$this.first()", "$this.select($this)"} {
@@ -939,4 +954,11 @@ func runC10(env *core.Env) {
 			}
 		}
 	}
+}
+
+func minInt(a, b int) int {
+	if a < b {
+		return a
+	}
+	return b
 }
